@@ -576,7 +576,10 @@ def main(argv):
             p = subprocess.run([sys.executable, os.path.abspath(__file__), "--replay", rp], stdout=subprocess.PIPE, stderr=subprocess.STDOUT)
             if p.returncode != 1:
                 rep.harness_error("seed %d: minimised case does not replay in a fresh process" % v["seed"])
-                os.unlink(rp)
+                try:
+                    os.unlink(rp)
+                except OSError:
+                    pass
                 continue
             ident = "class=%s stages=%d,%d knobs=%s fields=%s opts=%s id=%s" % (v["cls"], v["case"]["a"], v["case"]["b"], ",".join(v["knobs"]) or "none", ",".join(v["fields"]),
                                                                           "".join(v["case"]["opts"][:2]), sha(v["case"].get("text", ""))[:6])
